@@ -11,6 +11,7 @@
 (***************************************************************************)
 EXTENDS Api, TLC, Json, IOUtils
 
+P == INSTANCE Params
 Rec == ndJsonDeserialize(IOEnv.TRACE)
 VARIABLES l
 Init == l = 1
@@ -23,6 +24,11 @@ ProjMatches(st, rec) ==
     /\ DOMAIN rec.binds = {IdKey(b) : b \in DOMAIN p.binds}
     /\ \A c \in DOMAIN p.ctxs : DOMAIN rec.ctxs[IdKey(c)] = DOMAIN p.ctxs[c] /\ \A n \in DOMAIN p.ctxs[c] : rec.ctxs[IdKey(c)][n] = p.ctxs[c][n]
     /\ \A b \in DOMAIN p.binds : DOMAIN rec.binds[IdKey(b)] = DOMAIN p.binds[b] /\ \A n \in DOMAIN p.binds[b] : rec.binds[IdKey(b)][n] = p.binds[b][n]
+    /\ ("funcs" \in DOMAIN rec => \A b \in DOMAIN p.funcs : DOMAIN rec.funcs[IdKey(b)] = DOMAIN p.funcs[b] /\ \A n \in DOMAIN p.funcs[b] : rec.funcs[IdKey(b)][n] = p.funcs[b][n])
+
+(* the parameters reported for a stored program - however it got there: compiled in place, added precompiled, cloned  *)
+(* with its context or taken through serialization - name every variable its tree may read (C17, C19)                 *)
+ParamsMissing(st, ev) == (P!FreeVars(st.ctxs[ev.c][ev.n].tree, {}) \ TypeNames) \ {ev.params[i] : i \in 1..Len(ev.params)}
 
 (* evaluation is a function of the programs and the bindings (C11): two executions of the same program name under    *)
 (* equal recorded programs and equal recorded bindings - whichever objects hold them, whatever happened in between -  *)
@@ -30,6 +36,8 @@ ProjMatches(st, rec) ==
 SameInputs(a, b) == /\ a.a = "Exec" /\ b.a = "Exec" /\ a.n = b.n /\ "state" \in DOMAIN a /\ "state" \in DOMAIN b
                     /\ a.state.ctxs[IdKey(a.c)] = b.state.ctxs[IdKey(b.c)]
                     /\ a.state.binds[IdKey(a.b)] = b.state.binds[IdKey(b.b)]
+                    /\ ("funcs" \in DOMAIN a.state) = ("funcs" \in DOMAIN b.state)
+                    /\ ("funcs" \in DOMAIN a.state => a.state.funcs[IdKey(a.b)] = b.state.funcs[IdKey(b.b)])
 NotAFunction(steps, i) == \E j \in 1..(i - 1) : SameInputs(steps[j], steps[i]) /\ steps[j].out # steps[i].out
 
 RECURSIVE Replay(_, _, _)
@@ -42,6 +50,9 @@ Replay(steps, i, st) ==
             ELSE IF ev.a = "Exec" /\ NotAFunction(steps, i) THEN "exec-not-a-function@" \o ToString(i) \o ":" \o ev.n
             ELSE IF ev.a = "Details" /\ (ev.n \in DOMAIN st.ctxs[ev.c]) /\ ev.src # st.ctxs[ev.c][ev.n].src THEN "details-source@" \o ToString(i)
             ELSE IF ev.a = "Details" /\ ~(ev.n \in DOMAIN st.ctxs[ev.c]) /\ ev.found THEN "details-of-missing-program@" \o ToString(i)
+            ELSE IF ev.a = "Details" /\ (ev.n \in DOMAIN st.ctxs[ev.c]) /\ ~ev.found THEN "details-lost-program@" \o ToString(i)
+            ELSE IF ev.a = "Details" /\ (ev.n \in DOMAIN st.ctxs[ev.c]) /\ "params" \in DOMAIN ev /\ ParamsMissing(st, ev) # {} THEN "details-params@" \o ToString(i) \o ":" \o ToString(ParamsMissing(st, ev))
+            ELSE IF ev.a = "SerRound" /\ (ev.n \in DOMAIN st.ctxs[ev.c]) /\ ~ev.ok THEN "ser-round-failed@" \o ToString(i) \o ":" \o ev.fmt
             ELSE IF "state" \in DOMAIN ev /\ ~ProjMatches(st2, ev.state) THEN "state-after-" \o ev.a \o "@" \o ToString(i)
             ELSE Replay(steps, i + 1, st2)
 
